@@ -141,6 +141,8 @@ LINTS = [
      "a language value is compared with \"c++\" after it was normalised to \"cxx\""),
     ("write-only-key", lints.write_only_key, {"C01", "C04"},
      "a key is stored in the one of attrs / metaattrs that nobody reads it from"),
+    ("memo-scope-owner", lints.memo_scope_owner_mismatch, BEHAVIOURAL,
+     "a scope parented to one node is kept (setdefault) in a table that belongs to another node"),
     ("undefined-name", lints.undefined_names, BEHAVIOURAL | {"C17"},
      "a name is read that is bound nowhere: NameError when the statement is reached"),
     ("lost-reset", _lost_reset, BEHAVIOURAL,
